@@ -29,6 +29,7 @@ enum Act {
     RegisterCanonical(usize),
     /// id: 0 = fresh remote id, 1 = id of local (U0, salt0), 2 = canonical id of asset 0
     RemoteDeploy { id: u8, minter: u8 },
+    Advance(u32),
 }
 
 #[derive(Clone, Debug, PartialEq, Eq, Hash)]
@@ -46,6 +47,7 @@ struct TokenRec {
 
 #[derive(Clone, Hash)]
 struct Model {
+    advances: u8,
     reg: BTreeMap<[u8; 32], TokenRec>,
 }
 
@@ -117,11 +119,14 @@ impl Scenario for C11 {
             iw.seat_token(id);
         }
         let uni = vec![iw.users[0].clone(), iw.users[1].clone(), iw.users[2].clone(), iw.its.clone(), iw.owner.clone()];
-        (Ctx { iw, uni, ids_local, ids_canon, all_ids }, Model { reg: BTreeMap::new() })
+        (Ctx { iw, uni, ids_local, ids_canon, all_ids }, Model { advances: 0, reg: BTreeMap::new() })
     }
 
-    fn actions(&self, _ctx: &Ctx, _m: &Model) -> Vec<Act> {
+    fn actions(&self, _ctx: &Ctx, m: &Model) -> Vec<Act> {
         let mut v = vec![];
+        if m.advances < 1 {
+            v.push(Act::Advance(20));
+        }
         for deployer in 0..2usize {
             for salt in 0..2usize {
                 if !self.thorough && deployer == 1 && salt == 1 { continue; }
@@ -154,6 +159,13 @@ impl Scenario for C11 {
         let chain = iw.chain_name.as_str();
         let h0 = w.state_hash();
         match a {
+            Act::Advance(n) => {
+                out.kind = "advance";
+                out.accepted = true;
+                w.set_seq(w.seq() + n);
+                w.set_time(w.now() + 5 * *n as u64);
+                m.advances += 1;
+            }
             Act::Deploy { deployer, salt, supply, minter, meta, auth } => {
                 out.kind = "deploy";
                 let d = &iw.users[*deployer];
